@@ -515,6 +515,30 @@ pub fn run(ctx: &Ctx) -> i32 {
         }
         crate::drivers::run_layer(&col, &cases, &|s| if s.contains("GROUP BY") || s.contains("COUNT(") { "join+aggregate".to_string() } else { "join".to_string() });
     }
+    // OUTER JOIN: a row without partner shows NULL in every joined column, also in one declared with a DEFAULT
+    {
+        let dt = sut::make_tables("CREATE TABLE t({ .k } => k TEXT, { .x } => x INT);\nCREATE TABLE u({ .k } => k TEXT, { .y } => y INT DEFAULT 7, { .w } => w TEXT DEFAULT 'd');").unwrap();
+        let tmp = sut::TempFiles::new(&[b"{\"k\":\"a\",\"y\":1,\"w\":\"p\"}\n{\"k\":\"a\"}\n"]);
+        let main = ["{\"k\":\"a\",\"x\":1}", "{\"k\":\"zz\",\"x\":2}", "{\"x\":3}"];
+        for (text, want) in [
+            (format!("SELECT t.x, y, w FROM t OUTER JOIN u::'{}' ON t.k = u.k", tmp.paths[0]), vec![vec![RVal::Int(1), RVal::Int(1), RVal::Text("p".into())], vec![RVal::Int(1), RVal::Int(7), RVal::Text("d".into())], vec![RVal::Int(2), RVal::Null, RVal::Null], vec![RVal::Int(3), RVal::Null, RVal::Null]]),
+            (format!("SELECT t.x FROM t OUTER JOIN u::'{}' ON t.k = u.k WHERE y IS NULL", tmp.paths[0]), vec![vec![RVal::Int(2)], vec![RVal::Int(3)]]),
+        ] {
+            col.eval(1);
+            col.nontrivial(h64(&("outer-default", &text)));
+            let got = sut::run_batch(&dt, &sut::parse(&text).unwrap(), &main);
+            if !matches!(&got, Outcome::Ok(t) if sut::rows_same(&t.rows, &want)) {
+                col.fail(fail(
+                    "join:outer:default-column-of-partnerless-row".into(),
+                    format!("`{}`: a row without partner must show NULL in the joined columns (also those declared with DEFAULT)", text.replace(&tmp.paths[0], "<joined>")),
+                    json!({"layer": "errors"}),
+                    rows_json(&want),
+                    sut::outcome_json(&got, |t| t.to_json()),
+                    1,
+                ));
+            }
+        }
+    }
     let n = line_ending_layer(&col);
     col.layer("line endings of the joined / main file", n, true, json!({"renderings": ["LF/LF", "CRLF/LF", "LF/CRLF", "CRLF/CRLF", "no final terminator", "CRLF + joined final terminator only"]}));
     {
@@ -583,6 +607,34 @@ fn large_joined_case(int_keys: bool, n: usize, mult: usize) -> Vec<Failure> {
             sut::outcome_json(&got, |t| json!(t.to_json()["rows"].as_array().map(|a| a.iter().take(12).cloned().collect::<Vec<_>>()))),
             n as u64,
         ));
+    }
+    // the library constructor that loads the joined table itself must see the whole joined file
+    {
+        use sqlgrep::execution::execution_engine::ExecutionEngine;
+        let r = catch(|| -> Result<Vec<Vec<RVal>>, String> {
+            let mut engine = ExecutionEngine::with_executed_joined_table(&tables, &st).map_err(|e| format!("{}", e))?;
+            let cfg = engine.execution_config();
+            let mut rows = Vec::new();
+            for l in &ml {
+                let o = engine.execute(l.to_string(), &cfg).map_err(|e| format!("{}", e))?;
+                if let Some(rr) = o.result_row {
+                    for row in rr.data {
+                        rows.push(row.columns.iter().map(sut::from_value).collect());
+                    }
+                }
+            }
+            Ok(rows)
+        });
+        if !matches!(&r, Ok(Ok(rows)) if sut::rows_same(rows, &expected)) {
+            out.push(fail(
+                format!("join:large-joined-file:with_executed_joined_table:{}", kt),
+                format!("ExecutionEngine::with_executed_joined_table over a joined file of {} rows: the rows differ from the reference join", n),
+                json!({"layer": "large", "int_keys": int_keys, "n": n, "mult": mult}),
+                rows_json(&expected[..expected.len().min(12)]),
+                json!(format!("{:?}", r.as_ref().map(|x| x.as_ref().map(|rows| rows.len())))),
+                n as u64 + 2,
+            ));
+        }
     }
     let text2 = format!("SELECT t.x, ARRAY_AGG(y) FROM t INNER JOIN u::'{}' ON t.k = u.k GROUP BY t.x", tmp.paths[0]);
     let st2 = sut::parse(&text2).unwrap();
